@@ -44,6 +44,8 @@ CLAIMS["C05"] = (
     "programs, compared with the reference semantics and with the semantics of the model's generated code).",
     NOTE_COMMON + "Async try variants: result set over completion orders is covered by K2 only until the async model lands.",
     "Lean 4 refinement proof + K2 compiled-execution differential", "§7 C05")
+for _k in ("C05", "C15"):
+    CLAIMS.pop(_k)   # not claimed before their Props modules exist
 PLANNED = {}
 
 
